@@ -432,6 +432,18 @@ A_SIDE = R.universe([(4, int(ipaddress.IPv4Address(a))) for a in
 B_SIDE = R.universe([(4, int(ipaddress.IPv4Address(a))) for a in
                      ('10.1.255.255', '10.2.0.0', '10.2.0.1', '10.2.0.127', '10.2.0.128', '10.2.0.255', '10.2.1.0',
                       S.IP_B)], E_PORTS, PKT_PROTOS) + R.universe([(6, 1), (6, 1 << 127)], E_PORTS, PKT_PROTOS)
+# IPv6 networks behind the same IPv4 gateways (the family of the selectors differs from the family of the tunnel)
+A_NETS6 = ('2001:db8:1::/64', '2001:db8:1::/65')
+B_NETS6 = ('2001:db8:2::/64',)
+A_SIDE6 = R.universe([(6, int(ipaddress.IPv6Address(a))) for a in
+                      ('2001:db8:0:ffff:ffff:ffff:ffff:ffff', '2001:db8:1::', '2001:db8:1::1', '2001:db8:1:0:7fff:ffff:ffff:ffff',
+                       '2001:db8:1:0:8000::', '2001:db8:1:0:ffff:ffff:ffff:ffff', '2001:db8:1:1::')], E_PORTS, PKT_PROTOS) \
+    + R.universe([(4, int(ipaddress.IPv4Address(a))) for a in ('32.1.13.184', '10.1.0.1', S.IP_A)], E_PORTS, PKT_PROTOS)
+B_SIDE6 = R.universe([(6, int(ipaddress.IPv6Address(a))) for a in
+                      ('2001:db8:1:ffff:ffff:ffff:ffff:ffff', '2001:db8:2::', '2001:db8:2::1', '2001:db8:2:0:ffff:ffff:ffff:ffff',
+                       '2001:db8:2:1::')], E_PORTS, PKT_PROTOS) \
+    + R.universe([(4, int(ipaddress.IPv4Address(a))) for a in ('32.1.13.184', '10.2.0.1', S.IP_B)], E_PORTS, PKT_PROTOS)
+SIDES = {4: (A_SIDE, B_SIDE), 6: (A_SIDE6, B_SIDE6)}
 
 
 def net_sel(text, port, proto):
@@ -465,6 +477,13 @@ def e2e_cases():
                         for acq in ('entry', 'flow'):
                             out.append(((nt[0], nt[2], sp[0], dp[0], pr[0], md[0]),
                                         (nt[1], nt[3], sp[1], dp[1], pr[1], md[1]), acq))
+    nets6 = [(ai, ar, bi, br) for ai in A_NETS6 for ar in A_NETS6 for bi in B_NETS6 for br in B_NETS6]
+    for md in (('tunnel', 'tunnel'), ('transport', 'transport')):
+        for nt in nets6:
+            for dp in ((0, 0), (23, 23), (0, 23)):
+                for pr in (('any', 'any'), ('tcp', 'tcp')):
+                    for acq in ('entry', 'flow'):
+                        out.append(((nt[0], nt[2], 0, dp[0], pr[0], md[0]), (nt[1], nt[3], 0, dp[1], pr[1], md[1]), acq))
     return out
 
 
@@ -538,7 +557,7 @@ def fam_of(addr):
     return 4 if addr.version == 4 else 6
 
 
-def sa_flows(req):
+def sa_flows(req, A_SIDE=A_SIDE, B_SIDE=B_SIDE):
     """flows a NEWSA request's selector covers, normalised to (A side, B side, proto)"""
     s = req['sel']
     fam = {2: 4, 10: 6}.get(s['family'])
@@ -569,6 +588,10 @@ def e2e_run(case):
     """-> (outcome class, [(sig, msg)], facts for the rekey / evidence)"""
     ent_i, ent_r, acq = case
     label = e2e_label(ent_i, ent_r, acq)
+    netfam = ipaddress.ip_network(ent_i[0]).version
+    A_SIDE, B_SIDE = SIDES[netfam]
+    if netfam == 6:
+        label = 'v6-networks,' + label
     a, b = entry_dicts(ent_i, ent_r)
     w = S.new_world(S.base_confs(a_entry=a, b_entry=b))
     A, B = w.endpoints['A'], w.endpoints['B']
@@ -636,7 +659,7 @@ def e2e_run(case):
               'reply selectors cover %r which is not in proposed /\\ policy' % (sorted(rf - allowed)[:2],))
     for who, sas in (('initiator', sa_a), ('responder', sa_b)):
         for req in sas:
-            f = sa_flows(req)
+            f = sa_flows(req, A_SIDE, B_SIDE)
             s = req['sel']
             txt = '%s/%d:%d -> %s/%d:%d proto %d' % (s['saddr'], s['prefixlen_s'], s['sport'], s['daddr'],
                                                        s['prefixlen_d'], s['dport'], s['proto'])
